@@ -179,7 +179,7 @@ func (w *World) isParserFunc(fn *ssa.Function) bool {
 
 func ruleC16R2(w *World, r *Report) {
 	const rule = "C16/R2"
-	r.rule(rule, "no flow from Token.Space, Token.Comments or any token.Pos value to a branch condition of a parser function or to a non-position field of an ast node (sanitiser: token.Pos.Invalid())", 200)
+	r.rule(rule, "no flow from Token.Space, Token.Comments or any token.Pos value to a branch condition of a parser function or to a non-position field of an ast node (sanitiser: token.Pos.Invalid())", 100)
 	var posSrc, triviaSrc []ssa.Value
 	for _, fn := range w.ModFns {
 		if fnPkgPath(fn) != modRoot {
